@@ -50,6 +50,7 @@ type cliResult struct {
 	stdout, stderr []byte
 	exit           int
 	signaled       bool
+	sig            syscall.Signal
 	after          map[string]string
 	before         map[string]string
 	infra          string
@@ -123,6 +124,9 @@ func runCLI(c c16Case) cliResult {
 	}
 	cmd.Dir = target
 	cmd.Stdin = bytes.NewReader(c.Doc)
+	if c.Input == "devnull" {
+		cmd.Stdin = nil // the child reads /dev/null, as under cron, nohup or a service manager
+	}
 	var so, se bytes.Buffer
 	cmd.Stderr = &se
 	switch c.Stdout {
@@ -134,6 +138,15 @@ func runCLI(c c16Case) cliResult {
 		defer f.Close()
 		cmd.Stdout = f
 	case "closed":
+	case "brokenpipe":
+		// a pipe whose reader has gone away before the first write
+		pr, pw, err := os.Pipe()
+		if err != nil {
+			return cliResult{infra: err.Error()}
+		}
+		pr.Close()
+		defer pw.Close()
+		cmd.Stdout = pw
 	default:
 		cmd.Stdout = &so
 	}
@@ -150,6 +163,9 @@ func runCLI(c c16Case) cliResult {
 			res.exit = ee.ExitCode()
 			if res.exit < 0 {
 				res.signaled = true
+				if ws, ok := ee.Sys().(syscall.WaitStatus); ok && ws.Signaled() {
+					res.sig = ws.Signal()
+				}
 			}
 		} else {
 			res.infra = err.Error()
@@ -165,6 +181,10 @@ func c16Check(c c16Case) string {
 	if cli.infra != "" {
 		ops.InfraCount.Add(1)
 		ops.LastInfra.Store(cli.infra)
+		return ""
+	}
+	if c.Stdout == "brokenpipe" && cli.signaled && cli.sig == syscall.SIGPIPE {
+		// the conventional end of a process whose standard output has no reader any more: a failure status (128+SIGPIPE for a shell)
 		return ""
 	}
 	if cli.signaled || bytes.Contains(cli.stderr, []byte("goroutine 1 [")) || bytes.Contains(cli.stderr, []byte("panic:")) {
@@ -256,6 +276,12 @@ func c16Check(c c16Case) string {
 		if c.Stdout == "pipe" && !c.Massive && !bytes.Contains(cli.stderr, []byte(strings.TrimSpace(firstLine(lib.Err.Text)))) {
 			return fmt.Sprintf("%sstderr %q does not contain the library's diagnostic %q", head, truncate(string(cli.stderr), 300), firstLine(lib.Err.Text))
 		}
+	} else if c.Stdout == "brokenpipe" && len(lib.Out)+len(lib.Color) > 0 {
+		// nothing of the output can have been delivered: success is not a truthful status (how the failure is reported — a
+		// diagnostic and an exit status, or death by SIGPIPE, handled above — is the program's choice)
+		if cli.exit == 0 {
+			return fmt.Sprintf("%sstdout is a pipe without a reader and the library has %d bytes to write, but the exit status is 0", head, len(lib.Out)+len(lib.Color))
+		}
 	} else if c.Stdout == "devfull" && len(lib.Out) > 0 {
 		// (a closed stdout is different: the Go runtime re-opens closed standard descriptors on /dev/null at start-up, so every
 		// write is accepted and exit status 0 is truthful)
@@ -304,7 +330,7 @@ func firstLine(s string) string {
 
 func c16Gen() *rapid.Generator[c16Case] {
 	return rapid.Custom(func(t *rapid.T) c16Case {
-		c := c16Case{Stdout: "pipe", Input: rapid.SampledFrom([]string{"stdin", "stdin", "file", "file", "dash", "missing", "dir", "devstdin", "fifo"}).Draw(t, "input")}
+		c := c16Case{Stdout: "pipe", Input: rapid.SampledFrom([]string{"stdin", "stdin", "file", "file", "dash", "missing", "dir", "devstdin", "fifo", "devnull"}).Draw(t, "input")}
 		c.Sub = rapid.SampledFrom([]string{"output", "output", "o", "out", "mkdir", "mkdir", "m", "verify", "verify", "vf", "template", "t", "tmpl", "version", "v", "frobnicate", "outputs", ""}).Draw(t, "sub")
 		names := sampled(validElemPool())
 		hostile := rapid.IntRange(0, 5).Draw(t, "hostile") == 0
@@ -326,6 +352,9 @@ func c16Gen() *rapid.Generator[c16Case] {
 		c.Doc = []byte(model.Join(lines))
 		if rapid.IntRange(0, 15).Draw(t, "emptyDoc") == 0 {
 			c.Doc = []byte(rapid.SampledFrom([]string{"", "\n", "  \n"}).Draw(t, "blank"))
+		}
+		if c.Input == "devnull" {
+			c.Doc = nil // nothing can be read from /dev/null: the empty document
 		}
 		switch c.Sub {
 		case "output", "o", "out":
@@ -364,12 +393,12 @@ func c16Gen() *rapid.Generator[c16Case] {
 				c.TinyTimeout = d != "1ns"
 				c.Expired = d == "1ns"
 			}
-			c.Stdout = rapid.SampledFrom([]string{"pipe", "pipe", "pipe", "devfull", "closed"}).Draw(t, "stdout")
+			c.Stdout = rapid.SampledFrom([]string{"pipe", "pipe", "pipe", "devfull", "closed", "brokenpipe"}).Draw(t, "stdout")
 		case "mkdir", "m":
 			if rapid.Bool().Draw(t, "dry") || hostile {
 				c.Args = append(c.Args, rapid.SampledFrom([]string{"--dry-run", "-d", "--dry-run=true", "-d=true"}).Draw(t, "dflag"))
 				c.DryRun = true
-				c.Stdout = rapid.SampledFrom([]string{"pipe", "pipe", "devfull"}).Draw(t, "stdout")
+				c.Stdout = rapid.SampledFrom([]string{"pipe", "pipe", "devfull", "brokenpipe"}).Draw(t, "stdout")
 			} else if rapid.IntRange(0, 3).Draw(t, "explicitFalse") == 0 {
 				c.Args = append(c.Args, rapid.SampledFrom([]string{"--dry-run=false", "-d=false"}).Draw(t, "dflag"))
 			}
